@@ -5857,11 +5857,12 @@ class PyCdlib:
             joliet_path_bytes = self._normalize_joliet_path(joliet_path)
             (joliet_name, joliet_parent) = self._joliet_name_and_parent_from_path(joliet_path_bytes)
 
-            # Add in a "fake" symlink entry for Joliet.
+            # Add in a "fake" symlink entry for Joliet.  Like all other Joliet
+            # records it never carries an XA record.
             joliet_rec = dr.DirectoryRecord()
             joliet_rec.new_file(self.joliet_vd, 0, joliet_name, joliet_parent,
                                 self.joliet_vd.sequence_number(), '', b'',
-                                self.xa, -1, time.time())
+                                False, -1, time.time())
             num_bytes_to_add += self._add_child_to_dr(joliet_rec)
 
         self._finish_add(0, num_bytes_to_add)
